@@ -32,11 +32,12 @@ def block(rng, fault=None):
         items = rng.sample(DEPS, rng.randint(0, 3))
         if fault == "baddep":
             items.insert(rng.randint(0, len(items)), rng.choice(BADDEPS))
-        ls.append("ALL_DEPENDS=" + rng.choice([" ", "  ", "\t"]).join(items))
+        # items are separated by any Unicode white space, not only blanks and tabs
+        ls.append("ALL_DEPENDS=" + rng.choice([" ", "  ", "\t", " ", "\x0b", "\u0085", "\u00a0", "\u2028", "\u3000", " \u00a0 "]).join(items))
     if rng.random() < 0.5:
-        ls.append("SCAN_DEPENDS=" + " ".join(rng.sample(["/usr/pkgsrc/mk/bsd.pkg.mk", "../../a/b/Makefile", "x y", "/é"], rng.randint(0, 3))))
+        ls.append("SCAN_DEPENDS=" + rng.choice([" ", " ", "\u00a0", "\x0b", "\u2028", "\x0c"]).join(rng.sample(["/usr/pkgsrc/mk/bsd.pkg.mk", "../../a/b/Makefile", "x y", "/é"], rng.randint(0, 3))))
     if rng.random() < 0.4:
-        ls.append("MULTI_VERSION=" + rng.choice(["", " PYTHON_VERSION_REQD=311", "A=1 B=2", "  A=1\tB=2  "]))
+        ls.append("MULTI_VERSION=" + rng.choice(["", " PYTHON_VERSION_REQD=311", "A=1 B=2", "  A=1\tB=2  ", "A=1\u3000B=2", "A=1\u0085B=2\x0bC=3"]))
     if rng.random() < 0.4:
         ls.append(rng.choice(["UNKNOWN_KEY=1", "noequals", "=", "=x", "# comment", "PKGNAMEX=y"]))
     head, tail = ls[:1], ls[1:]
@@ -55,6 +56,12 @@ def block(rng, fault=None):
 def generate(rng, tier):
     n = 400 if tier == "quick" else 8000
     cases = []
+    # lines far longer than any buffer (64 KiB and more): one logical line stays one line
+    for L in (8000, 65530, 65536, 70000, 140000):
+        deps = " ".join("/usr/pkgsrc/cat%d/pkg%d/Makefile" % (i, i) for i in range(L // 30))
+        filler = "x" * (65536 - len("MULTI_VERSION=") - 1)
+        t = "PKGNAME=long-1.0\nSCAN_DEPENDS=" + deps + "\nMULTI_VERSION=" + filler + " PKGNAME=phantom-6.6 B=2\nPKGNAME=next-2.0\nMAINTAINER=" + "m" * L + "\n"
+        cases.append(Case("scan.read", [enc(t), "N"], meta={"nt": True, "fault": "long"}))
     for t in ["", "\n\n", "PKGNAME=a-1\n", "PKGNAME=a-1", "X=1\nPKGNAME=a-1\n", "PKGNAME=a-1\nPKGNAME=b-2\n", "PKGNAME=a-1\n\nALL_DEPENDS=\nPKGNAME=b-2\nALL_DEPENDS=x\n"]:
         cases.append(Case("scan.read", [enc(t), "N"], meta={"nt": True}))
     for _ in range(n):
